@@ -495,6 +495,9 @@ from ..selftest import V  # noqa: E402
 COV = FRM + "covariant.py"
 BAS = FRM + "basic.py"
 SELFTEST = [
+    V("Der2Omega declares its parities only with external terms (seeded C08-m3)", FRM + "covariant.py",
+      "            self.ddO = Der2O(data_K)\n        self.ndim = 3\n        self.transformTR = transform_odd\n        self.transformInv = transform_ident\n",
+      "            self.ddO = Der2O(data_K)\n            self.transformTR = transform_odd\n            self.transformInv = transform_ident\n        self.ndim = 3\n", "fire", "R08.1"),
     V("Omega declared TR-even", COV,
       "        self.ndim = 1\n        self.transformTR = transform_odd\n        self.transformInv = transform_ident\n\n    def nn(self, ik, inn, out):\n        summ = np.zeros((len(inn), len(inn), 3), dtype=complex)\n\n        if self.internal_terms:\n            summ += -1j * cached_einsum(\n                \"mlc,lnc->mnc\",\n                self.D.nl(ik, inn, out)[:, :, alpha_A],\n                self.D.ln(ik, inn, out)[:, :, beta_A])",
       "        self.ndim = 1\n        self.transformTR = transform_ident\n        self.transformInv = transform_ident\n\n    def nn(self, ik, inn, out):\n        summ = np.zeros((len(inn), len(inn), 3), dtype=complex)\n\n        if self.internal_terms:\n            summ += -1j * cached_einsum(\n                \"mlc,lnc->mnc\",\n                self.D.nl(ik, inn, out)[:, :, alpha_A],\n                self.D.ln(ik, inn, out)[:, :, beta_A])",
